@@ -22,11 +22,11 @@ import vlib
 LEVEL = "model_checking"
 
 BACKINGS = ["memory", "leveldb", "kv", "sqlite"]
-CFGS = BACKINGS + ["buffer[max=%d](%s)" % (mx, b) for b in BACKINGS for mx in (64, 1000000)]
+CFGS = BACKINGS + ["buffer[max=%d](%s)" % (mx, b) for b in BACKINGS for mx in (4, 1000000)]
 # on-disk stores with a past (close/reopen cycles of since-deleted data: LSM tables below level 0, tombstones)
-AGED_QUICK = ["leveldb[aged=1]", "buffer[max=64](leveldb[aged=1])"]
-AGED_THOROUGH = ["leveldb[aged=1]", "kv[aged=1]", "sqlite[aged=1]", "buffer[max=64](leveldb[aged=1])",
-                 "buffer[max=1000000](kv[aged=1])", "buffer[max=64](sqlite[aged=1])"]
+AGED_QUICK = ["leveldb[aged=1]", "buffer[max=4](leveldb[aged=1])"]
+AGED_THOROUGH = ["leveldb[aged=1]", "kv[aged=1]", "sqlite[aged=1]", "buffer[max=4](leveldb[aged=1])",
+                 "buffer[max=1000000](kv[aged=1])", "buffer[max=4](sqlite[aged=1])"]
 
 
 def tla_set(xs):
@@ -250,16 +250,18 @@ def body(ctx, drv, al, scratch):
     gen_ov = {"NK": al["nk"], "NV": al["nv"], "BigKeys": tla_set(al["bigk"]), "BigVals": tla_set(al["bigv"]),
               "GenKeys": tla_set(al["genk"]), "GenVals": tla_set(al["genv"]),
               "BatchKeys": tla_set(al["batchk"]), "BatchVals": tla_set(al["batchv"][:1] if quick else al["batchv"])}
+    # single batches of up to 3 mutations also carry the oversize value (skipped while its neighbours apply)
+    b3vals = tla_set([al["batchv"][0], al["bigv"][0]] if quick else al["batchv"] + al["bigv"][:1])
 
-    def gen(mode, depth, maxbatch, simulate=None):
-        ov = dict(gen_ov, Mode='"%s"' % mode, Depth=depth, MaxBatch=maxbatch)
+    def gen(mode, depth, maxbatch, simulate=None, **more):
+        ov = dict(gen_ov, Mode='"%s"' % mode, Depth=depth, MaxBatch=maxbatch, **more)
         if simulate:
             return ctx.tlc_gen("SortedKVGen", "SortedKVGen.cfg", overrides=ov, simulate=simulate, depth=10 * depth + 10, seed=ctx.seed)
         return ctx.tlc_gen("SortedKVGen", "SortedKVGen.cfg", overrides=ov)
-    g_jobs = [("batch", pool.submit(gen, "batch", 2, 2)), ("scan", pool.submit(gen, "scan", 3, 0))]
+    g_jobs = [("batch", pool.submit(gen, "batch", 2, 2)), ("scan", pool.submit(gen, "scan", 3, 0)),
+              ("batch3", pool.submit(gen, "batch", 1, 3, BatchVals=b3vals))]
     if not quick:
         g_jobs.append(("mut", pool.submit(gen, "mut", 3, 0)))
-        g_jobs.append(("batch3", pool.submit(gen, "batch", 1, 3)))
     g_jobs.append(("sim", pool.submit(gen, "all", 60 if quick else 80, 4, 60 if quick else 600)))
     hists = []
     sizes = {}
@@ -289,7 +291,9 @@ def body(ctx, drv, al, scratch):
             ctx.log("%s: abandoned after %d hangs, %d histories unexamined" % (cfg, hangs, unexamined))
     neg.result()
     for f in s_jobs:
-        f.result()
+        r = f.result()
+        if r.get("zero_actions"):
+            raise vlib.MachineryError("coverage: actions never taken in %s/%s: %s" % (r["module"], r["cfg"], r["zero_actions"]))
     pool.shutdown()
     ctx.count("G", replayed_histories=total_h, events=total_e, configurations=len(cfgs), **{"gen_" + k: v for k, v in sizes.items()})
     ctx.cov["traces_validated_against_impl"] = total_h
